@@ -54,3 +54,8 @@ pub(crate) fn c18_decide_repack_limits() {
     kani::cover!(true, "decide_repack returned");
     std::mem::forget(plan);
 }
+
+/// an empty plan (no index files, no packs): the B-tree maps stay empty
+pub(crate) fn empty_plan() -> PrunePlan {
+    PrunePlan { time: Zoned::default(), used_ids: BTreeMap::new(), existing_packs: BTreeMap::new(), repack_candidates: Vec::new(), index_files: Vec::new(), stats: PruneStats::default() }
+}
